@@ -242,6 +242,12 @@ func (env *SpecEnv) modItems(c *Clause) (items []locItem, err error) {
 				d, ds, v, vs := mapClasses(mp)
 				items = append(items, locItem{class: d, sort: ds, loc: m}, locItem{class: v, sort: vs, loc: m}, locItem{class: mapLenClass, sort: mapLenSort, loc: m})
 				continue
+			case "gf":
+				o, _ := env.tr(a.Args[1])
+				t := env.resolveTypeExpr(a.Args[3])
+				cl, so := ghostClass(a.Args[2].Name, t)
+				items = append(items, locItem{class: cl, sort: so, loc: o})
+				continue
 			case "object":
 				p, pt := env.tr(a.Args[1])
 				if ptr, ok := types.Unalias(pt).Underlying().(*types.Pointer); ok {
